@@ -9,7 +9,7 @@ prop("C01",
                 "UID, reloads keep live pods' addresses configured - otherwise operator error: an address removed while in use "
                 "and added again is handed out again; theorem and monitor exempt it), for every fault position of every move. "
                 "State.store = objects of configured addresses, State.orphans = objects whose delete failed during a reload. "
-                "The defects found earlier (consequences of the C04 ones) are fixed; their replays are regression histories.",
+                "The defects found earlier (consequences of the C04 ones) are fixed; their replays are regression histories. A pod inside its deletion grace period (deletionTimestamp set, object still there) is a live pod: model flag Pod.terminating, move markTerminating (the update event goes through UpdatePod, then syncPodIP), fact finishedChecksPhaseOnly, counter theorem terminating_pod_counter, corpus graceful-deletion.ops; the harness generates graceful deletions (pod term ... pod delete) with everything else going on in between.",
      technique="Lean 4 inductive invariant over an executable model + regenerated structural facts (factgen plugin) + differential "
                "correspondence with the REAL FloatingIPPlugin (see C04); monitor = no address in the binding annotation of two "
                "live pods, IPAM dump lists every address once, FloatingIP objects and memory agree on key/uid/node/policy; "
